@@ -2,16 +2,149 @@ package main
 
 import (
 	"go/constant"
+	"go/types"
 	"strings"
 
 	"golang.org/x/tools/go/ssa"
 )
+
+// varargElems finds, syntactically, the values stored into a varargs array that is passed as
+// `slice alloc[:]` (the shape go/ssa emits for f(a, b, c) with a variadic f).
+func varargElems(v ssa.Value) ([]ssa.Value, bool) {
+	sl, ok := v.(*ssa.Slice)
+	if !ok {
+		if c, isConst := v.(*ssa.Const); isConst && c.Value == nil {
+			return nil, true // nil slice: no arguments
+		}
+		return nil, false
+	}
+	al, ok := sl.X.(*ssa.Alloc)
+	if !ok || sl.Low != nil || sl.High != nil {
+		return nil, false
+	}
+	at, ok := al.Type().(*types.Pointer).Elem().Underlying().(*types.Array)
+	if !ok {
+		return nil, false
+	}
+	elems := make([]ssa.Value, at.Len())
+	for _, r := range *al.Referrers() {
+		ia, ok := r.(*ssa.IndexAddr)
+		if !ok {
+			continue
+		}
+		c, ok := ia.Index.(*ssa.Const)
+		if !ok || c.Value == nil {
+			return nil, false
+		}
+		k, _ := constant.Int64Val(c.Value)
+		for _, r2 := range *ia.Referrers() {
+			if st, ok := r2.(*ssa.Store); ok && st.Addr == ia {
+				if elems[k] != nil {
+					return nil, false
+				}
+				elems[k] = st.Val
+			}
+		}
+	}
+	for _, e := range elems {
+		if e == nil {
+			return nil, false
+		}
+	}
+	return elems, true
+}
+
+// sprintfTerm models fmt.Sprintf for a constant format: %d of an integer is dec(n), %s of a string
+// is the string itself; every other verb contributes an unconstrained string.
+func (fr *frame) sprintfTerm(format string, elems []ssa.Value) string {
+	vc := fr.vc
+	var parts []string
+	lit := ""
+	flush := func() {
+		if lit != "" {
+			parts = append(parts, smtString(lit))
+			lit = ""
+		}
+	}
+	argi := 0
+	for i := 0; i < len(format); i++ {
+		c := format[i]
+		if c != '%' {
+			lit += string(c)
+			continue
+		}
+		if i+1 >= len(format) {
+			lit += "%"
+			break
+		}
+		i++
+		v := format[i]
+		if v == '%' {
+			lit += "%"
+			continue
+		}
+		flush()
+		var term string
+		if argi < len(elems) {
+			e := elems[argi]
+			var inner ssa.Value = e
+			if mi, ok := e.(*ssa.MakeInterface); ok {
+				inner = mi.X
+			}
+			it := inner.Type()
+			val := fr.operand(inner, fr.curEnv)
+			switch {
+			case v == 'd' && isIntType(it):
+				term = "(dec " + val.t + ")"
+			case v == 's' && isStringType(it) && !hasStringMethod(it):
+				term = val.t
+			}
+		}
+		argi++
+		if term == "" {
+			term = vc.fresh("fmtverb", sortString)
+		}
+		parts = append(parts, term)
+	}
+	flush()
+	switch len(parts) {
+	case 0:
+		return "\"\""
+	case 1:
+		return parts[0]
+	}
+	return "(str.++ " + strings.Join(parts, " ") + ")"
+}
+
+func hasStringMethod(t types.Type) bool {
+	ms := types.NewMethodSet(t)
+	for i := 0; i < ms.Len(); i++ {
+		n := ms.At(i).Obj().Name()
+		if n == "String" || n == "Error" || n == "Format" {
+			return true
+		}
+	}
+	return false
+}
 
 // builtinSpec gives engine-level models for a few library functions whose behaviour depends on
 // constant arguments (format strings). Returns nil when no model applies.
 func (e *Engine) builtinSpec(fr *frame, fn *ssa.Function, args []Val, st *State, alive string) *Val {
 	vc := fr.vc
 	switch fn.String() {
+	case "fmt.Sprintf":
+		if len(fr.curCallArgs) == 2 {
+			if c, ok := fr.curCallArgs[0].(*ssa.Const); ok && c.Value != nil && c.Value.Kind() == constant.String {
+				if elems, ok := varargElems(fr.curCallArgs[1]); ok {
+					if _, has := e.specs.funSigs["dec"]; has {
+						vc.usedSpecs["fmt.Sprintf (constant format: %d of an integer = dec(n), %s of a string = the string) [engine built-in]"] = true
+						r := Val{t: vc.define("sprintf", sortString, fr.sprintfTerm(constant.StringVal(c.Value), elems))}
+						return &r
+					}
+				}
+			}
+		}
+		return nil
 	case "fmt.Errorf":
 		// fmt.Errorf never returns nil. With a constant format without %w the result wraps nothing,
 		// so it is not (and does not wrap) a registered sentinel.
